@@ -120,6 +120,10 @@ func (vm *Vm) Run(ctx context.Context, b []byte) ([]byte, error) {
 	logg.Tracef("new vm run")
 	running := true
 	vm.last = ""
+	// a new run compares its input afresh; within a run a match blocks all later INCMP
+	if !vm.st.MatchFlag(state.FLAG_TERMINATE, true) {
+		vm.st.ResetFlag(state.FLAG_INMATCH)
+	}
 	for running {
 		r := vm.st.MatchFlag(state.FLAG_TERMINATE, true)
 		if r {
@@ -381,10 +385,8 @@ func (vm *Vm) runInCmp(ctx context.Context, b []byte) ([]byte, error) {
 		panic(err)
 	}
 	if have {
-		if reading {
-			logg.DebugCtxf(ctx, "ignoring input - already have match", "input", sym)
-			return b, nil
-		}
+		logg.DebugCtxf(ctx, "ignoring input - already have match", "input", sym, "reading", reading)
+		return b, nil
 	} else {
 		vm.st.SetFlag(state.FLAG_READIN)
 	}
